@@ -12,23 +12,23 @@ use std::{
 pub(crate) struct MemoryStats {
     pub cache_hits: Cell<u32>,
     pub cache_misses: Cell<u32>,
-    pub frames_evicted: Cell<u16>,
+    pub frames_evicted: Cell<u32>,
 }
 
 impl MemoryStats {
     fn cache_hit(&self) {
         let current = self.cache_hits.get();
-        self.cache_hits.set(current + 1);
+        self.cache_hits.set(current.wrapping_add(1));
     }
 
     fn cache_miss(&self) {
         let current = self.cache_misses.get();
-        self.cache_misses.set(current + 1);
+        self.cache_misses.set(current.wrapping_add(1));
     }
 
     fn eviction(&self) {
         let current = self.frames_evicted.get();
-        self.frames_evicted.set(current + 1);
+        self.frames_evicted.set(current.wrapping_add(1));
     }
 }
 impl Display for MemoryStats {
